@@ -1237,6 +1237,20 @@ def _tokenize(
                             continue
                         else:
                             if tolerant:
+                                # Unterminated single-quoted f-string: end it
+                                # here (like the end-of-line case below).
+                                # Leaving it on the stack without moving
+                                # ``pos`` re-enters this scan on the same
+                                # character forever.
+                                if text:
+                                    yield TokenInfo(
+                                        FSTRING_MIDDLE,
+                                        text,
+                                        (lnum, text_start),
+                                        (lnum, pos),
+                                        line,
+                                    )
+                                fstring_stack.pop()
                                 break
                             raise TokenError(
                                 "EOL while scanning f-string",
